@@ -1531,3 +1531,50 @@ Proof.
   - apply N.eqb_eq in E. tauto.
   - apply N.eqb_neq in E. rewrite filter_In, N.eqb_eq. tauto.
 Qed.
+
+(** * The owner-deletion helper frees before the finalizer goes
+
+    Whenever FreeCacheAndRemoveFinalizer lets go of the owner - it returns nil, or its patch reaches the
+    API server at all (applied, lost response, or answered NotFound because the owner is already gone) -
+    Cache.Free has run and succeeded: the owner is in no owner set and exactly the informers nobody else
+    needs are stopped.  When Free fails no patch is sent, so the finalizer stays and the owner is
+    reconciled again. *)
+Theorem helper_frees_before_finalizer_goes fixed s o out order has_fin p s' fo sent r :
+  free_and_remove_finalizer (stepf fixed) s o out order has_fin p = (s', fo, sent, r) ->
+  sent = true \/ r = RetNil ->
+  stepf fixed s (Free o out order) = (s', fo) /\ o_err fo = ErrNone /\
+  (forall g, owners s' g = rem o (owners s g)) /\
+  (forall g, ~ In o (owners s' g)) /\
+  (forall g, running s' g <-> running s g /\ ~ (In o (owners s g) /\ rem o (owners s g) = [])).
+Proof.
+  unfold free_and_remove_finalizer. destruct (stepf fixed s (Free o out order)) as [s1 o1] eqn:E. cbn [fst snd].
+  intros H Hrel.
+  assert (He : o_err o1 = ErrNone).
+  { destruct (o_err o1); try reflexivity; injection H as _ _ <- <-; destruct Hrel; discriminate. }
+  rewrite He in H. injection H as <- <- _ _.
+  destruct (free_exact _ _ _ _ _ _ _ E He) as (Ho & Hr & _).
+  split; [reflexivity|]. split; [exact He|]. split; [exact Ho|]. split; [|exact Hr].
+  intros g Hin. rewrite Ho in Hin. apply In_rem in Hin. tauto.
+Qed.
+
+Theorem helper_failed_free_keeps_finalizer fixed s o out order has_fin p s' fo sent r :
+  free_and_remove_finalizer (stepf fixed) s o out order has_fin p = (s', fo, sent, r) ->
+  o_err fo <> ErrNone -> sent = false /\ r = RetFreeErr.
+Proof.
+  unfold free_and_remove_finalizer. destruct (stepf fixed s (Free o out order)) as [s1 o1]. cbn [fst snd].
+  destruct (o_err o1) eqn:E; intros H; injection H as <- <- <- <-; intros Hn; try (split; reflexivity).
+  now rewrite E in Hn.
+Qed.
+
+(** In particular for an owner that no longer exists (patch answered NotFound). *)
+Corollary helper_owner_gone_is_freed fixed s o out order s' fo sent r :
+  free_and_remove_finalizer (stepf fixed) s o out order true patch_not_found = (s', fo, sent, r) ->
+  o_err fo = ErrNone ->
+  sent = true /\ (forall g, ~ In o (owners s' g)).
+Proof.
+  intros H He.
+  assert (Hs : sent = true).
+  { unfold free_and_remove_finalizer in H. destruct (stepf fixed s (Free o out order)) as [s1 o1]. cbn [fst snd] in *.
+    destruct (o_err o1) eqn:E; injection H as <- <- <- <-; try reflexivity; rewrite E in He; discriminate. }
+  split; [exact Hs|]. now destruct (helper_frees_before_finalizer_goes _ _ _ _ _ _ _ _ _ _ _ H (or_introl Hs)) as (_ & _ & _ & Hn & _).
+Qed.
